@@ -1,0 +1,48 @@
+//! Verification hooks (feature `verif-hooks`): thin wrappers that only *call* the private
+//! functions of `preprocessing.rs` so that an external harness can exercise them directly.
+use super::*;
+
+pub fn from_graph(graph: Graph, dimension: usize) -> TropicalGraph {
+    TropicalGraph::from_graph(graph, dimension)
+}
+
+pub fn connected_components(graph: &TropicalGraph, edges: &[usize]) -> Vec<usize> {
+    graph
+        .get_connected_components(edges)
+        .iter()
+        .map(TropicalSubGraphId::get_id)
+        .collect()
+}
+
+pub fn loop_number(graph: &TropicalGraph, edges: &[usize]) -> usize {
+    graph.get_loop_number(edges)
+}
+
+pub fn weight_sum(graph: &TropicalGraph, edges: &[usize]) -> f64 {
+    graph.compute_weight_sum(edges)
+}
+
+pub fn is_mass_momentum_spanning(graph: &TropicalGraph, edges: &[usize]) -> bool {
+    graph.is_mass_momentum_spanning(edges)
+}
+
+pub fn generate_table(
+    graph: &TropicalGraph,
+    dimension: usize,
+) -> Result<TropicalSubgraphTable, String> {
+    TropicalSubgraphTable::generate_from_tropical(graph, dimension)
+}
+
+pub fn sample_edge<T: MomTropFloat>(
+    table: &TropicalSubgraphTable,
+    uniform: &T,
+    subgraph_id: usize,
+) -> (usize, usize) {
+    let subgraph = TropicalSubGraphId::from_id(subgraph_id, table.tropical_graph.topology.len());
+    let (edge, rest) = table.sample_edge(uniform, &subgraph);
+    (edge, rest.get_id())
+}
+
+pub fn num_variables(table: &TropicalSubgraphTable) -> usize {
+    table.get_num_variables()
+}
